@@ -105,7 +105,8 @@ def gen_cfg(rng, max_vars=4, max_terms=3, max_prods=7, max_body=4, profile=None,
     names = ["N:" + x for x in sorted(set(vs + ts + [start, FOREIGN]))]
     hashes = assign_hashes(rng, names, mode)
     return {"vars": vs, "terms": ts, "start": start, "prods": prods, "valmode": valmode, "hash": hashes,
-            "hashmode": mode, "profile": profile, "ctor_sets": rng.chance(0.3)}
+            "hashmode": mode, "profile": profile, "ctor_sets": rng.chance(0.3),
+            "words_as_terminals": rng.chance(0.4)}
 
 
 # ---------------------------------------------------------------------------
@@ -176,6 +177,10 @@ def term_keys(case, foreign=False):
 
 def word_values(case, word_keys):
     back = {key(val(case, t)): val(case, t) for t in case["terms"] + [FOREIGN]}
+    if case.get("words_as_terminals"):
+        # the word given as Terminal objects instead of raw values (both are accepted)
+        from pyformlang.cfg import Terminal
+        return [Terminal(back[k]) for k in word_keys]
     return [back[k] for k in word_keys]
 
 
